@@ -30,7 +30,7 @@ PROPS["C02"] = {
     "kani": "c02",
     "mir": "c02",
     "level": "model_checking",
-    "explanation": "Bounded model checking (Kani/CBMC) of the real row-level predicate code on both storage tiers: NumericCondition / LogicalCondition evaluated over the real typed ColumnValues views (segment tier) and over a real Event (memory tier) are each compared with the mathematical comparison for every 64-bit value, literal and operator, so the two tiers are shown to agree; literal typing in add_where_clause is checked the same way.",
+    "explanation": "Bounded model checking (Kani/CBMC) of the real row-level predicate code on both storage tiers: NumericCondition / LogicalCondition evaluated over the real typed ColumnValues views (segment tier) and over a real Event (memory tier) are each compared with the mathematical comparison for every 64-bit value, literal and operator, so the two tiers are shown to agree; literal typing in add_where_clause is checked the same way. B-3 (= C08 B-7): the temporal pruner's per-zone range test.",
     "outside": [
         "zone / segment pruning (C08 covers the pruning structures Kani reaches; zone_collector, zone_combiner, index_planner, field_selector are HashMap / I-O bound)",
         "string, enum and temporal literals (chrono / serde_json parsing does not finish under Kani)",
@@ -45,7 +45,7 @@ PROPS["C08"] = {
     "native_validate": [{"id": "N-1", "args": ["triecheck"],
                          "desc": "the trie arrays the SuRF probe harnesses (A-5*) start from equal SurfTrie::build_from_sorted for every pair of 3-byte keys over the alphabet {0,1,2,127,128,255} (23436 pairs), native dev build"}],
     "level": "model_checking",
-    "explanation": "Bounded model checking (Kani/CBMC) of the pruning kernels that are executable symbolically: the order-preserving key encodings shared by the SuRF builder and the range probe (same-kind and cross-kind literals), the per-zone time index (builder invariant + query side from any state satisfying it) and the calendar's bucket arithmetic. Soundness is asserted as: whenever a stored value satisfies the probe, the structure's comparison keeps the zone. Engine B B-2: TemporalCalendarIndex::add_zone_range inserts the zone into every hour and day bucket of its range (per loop iteration: admitted by t <= end implies inserted; key and step checked). B-4: zone identity in CandidateZone::uniq / ZoneCombiner must include the event type (data flow of the keys; known finding F-C08-d, replayed end to end on the real engine). B-5: the per-zone XOR filter is built from every value value_to_string renders, hashed with stable_hash64. B-3: naive_bucket_of over the whole u64 range (integer encoding).",
+    "explanation": "Bounded model checking (Kani/CBMC) of the pruning kernels that are executable symbolically: the order-preserving key encodings shared by the SuRF builder and the range probe (same-kind and cross-kind literals), the per-zone time index (builder invariant + query side from any state satisfying it) and the calendar's bucket arithmetic. Soundness is asserted as: whenever a stored value satisfies the probe, the structure's comparison keeps the zone. Engine B B-2: TemporalCalendarIndex::add_zone_range inserts the zone into every hour and day bucket of its range (per loop iteration: admitted by t <= end implies inserted; key and step checked). B-4: zone identity in CandidateZone::uniq / ZoneCombiner must include the event type (data flow of the keys; known finding F-C08-d, replayed end to end on the real engine). B-5: the per-zone XOR filter is built from every value value_to_string renders, hashed with stable_hash64. B-3: naive_bucket_of over the whole u64 range (integer encoding). B-6: zone candidates of NOT F are never a complement of F's candidates (known finding F-C08-e, replayed end to end). B-7: the temporal pruner's [min, max] test per operator.",
     "outside": [
         "the trie builder under the solver (SurfTrie::build_from_sorted uses a HashMap): the probe harnesses start from hand-written trie arrays that a native run compares with the real builder; keys longer than 3 bytes, more than two keys per zone, the 16-lane SIMD child scan (needs >= 16 children)",
         "enum bitmaps, the calendar index's bitmap operations (HashMap<u32,RoaringBitmap>; its bucket-id function is decided by Engine B, B-1), the min_ts >= 0 insertion guard in the async temporal builder, XOR / binary-fuse filters, context index, index catalog, the >90% fallback rule: HashMap / roaring / xorf / I-O bound",
@@ -58,7 +58,7 @@ PROPS["C09"] = {
     "kani": "c09",
     "mir": "c09",
     "level": "model_checking",
-    "explanation": "Bounded model checking (Kani/CBMC) of the aggregate kernels: partial states of any split of a multiset merge to the state of the whole (AggState::merge for COUNT / TOTAL / AVG / MIN / MAX), the aggregators' update / merge / finalize equal the mathematical metric, the memory-tier update_from_event feeds exactly the stored values, snapshot_aggregator preserves the mergeable state. B-3: the coordinator's finalisation of a merged MIN / MAX state reports the numeric extreme whenever one exists (follows a helper of the same impl if the arm delegates to one).",
+    "explanation": "Bounded model checking (Kani/CBMC) of the aggregate kernels: partial states of any split of a multiset merge to the state of the whole (AggState::merge for COUNT / TOTAL / AVG / MIN / MAX), the aggregators' update / merge / finalize equal the mathematical metric, the memory-tier update_from_event feeds exactly the stored values, snapshot_aggregator preserves the mergeable state. B-3: the coordinator's finalisation of a merged MIN / MAX state reports the numeric extreme whenever one exists (follows a helper of the same impl if the arm delegates to one). B-4: the row filter built from a plan always carries the scope conditions (event type, FOR, SINCE), also for aggregation plans (known finding F-C09-b, replayed end to end on both tiers).",
     "outside": [
         "COUNT UNIQUE (HashSet), group keys and AggPartial::merge (HashMap), the segment-tier update(row, columns) and SIMD update_column paths (HashMap<String, ColumnValues>)",
         "calendar-aware PER bucketing (chrono), equality with the selection path over stored data, FOR / SINCE handling in aggregate mode (build_from_plan needs a QueryPlan)",
@@ -94,6 +94,8 @@ PROPS["C16"] = {
 
 MIR_TRUSTED = ['rustc (repository toolchain) -Zdump-mir output is a faithful rendering of the MIR before the coroutine transform', 'mirsym: MIR text parser + bounded DAG unrolling + state-merging encoder (vlib/mirsym), validated by parser self-check and seeded mutations', 'z3 (z3-solver 4.15 / 5.1 python bindings)']
 
+COMPOSED_TRUSTED = ["the transition system that composes the per-function facts (vlib/mirsym/specs/prunespec.py, handovercrash.py) is written here, not extracted: 'holds' is relative to it; its counterexamples are replayed on the real engine", "mod-2^k integer encoding of bit-vector arithmetic (oblig.IntEnc), validated exhaustively on 8 bits against z3's bit-vector semantics"]
+
 PROPS["C19"] = {
     "mir": "c19",
     "level": "other",
@@ -112,8 +114,8 @@ PROPS["C01"] = {
     "explanation": "Symbolic path-condition checking over the real MIR of the write path (insert_and_maybe_flush, the flush task of FlushWorker::run, WalCleaner::cleanup_up_to, SegmentIndex::save/load, InnerWalWriter::append_immediate): the ordering and guard facts the property's mechanisms rest on - WAL append before memtable insert, WAL pruning only after write+verify+publish, index replaced by temp/fsync/rename, flush-each-write honoured - each decided by z3 over every branch outcome of the opaque calls. On top of these per-function facts, B-3 is a bounded model check of the composed write path of one shard (STORE / FLUSH / graceful restart, then kill; <= 6 steps quick, 8 thorough; capacity 1..3): the cut-off rule, the rotation rules and the cleaner's comparison are read from the MIR by solver queries, z3 searches for a history that leaves an acknowledged event without a surviving copy or with two, and the history it returns is run on the real engine (native replay program, real parser / shard / WAL thread / flush worker, kill = _exit) before anything is reported.",
     "trusted_base": MIR_TRUSTED,
     "outside": [
-        "crash points inside a step (only kills between commands are modelled), configurations beyond capacity 1..3 / one shard, histories longer than the bound",
-        "flushes that overlap later commands (the model completes each flush before the next command), a WAL thread that lags behind the acknowledgements (STORE is acknowledged when the entry is queued), failed flushes",
+        "crash points other than: between two commands, and between a segment's publication and the pruning of its WAL logs; configurations beyond capacity 1..3 / one shard; histories longer than the bound",
+        "a WAL thread that lags behind the acknowledgements (STORE is acknowledged when the entry is queued, not when it is written), failing flushes, several flushes finishing out of queue order",
         "compaction in the history (L0 ids restart after compaction emptied L0), schema reload, hand-over durability",
     ],
 }
@@ -121,7 +123,7 @@ PROPS["C01"] = {
 PROPS["C03"] = {
     "mir": "c03",
     "level": "other",
-    "explanation": "Symbolic path-condition checking over the real MIR of the publication protocol (flush task, queue_for_flush, insert_and_maybe_flush): the passive in-memory copy is released only after the segment is verified and in the live list, nothing is published on a failure branch, the in-flight marker is set before the job is sent, the passive copy exists before the memtable is swapped - each decided by z3 over every branch outcome. B-7: StreamingScan::new plans on the shard's shared live-list handle and does not read the list while the scan is set up.",
+    "explanation": "Symbolic path-condition checking over the real MIR of the publication protocol (flush task, queue_for_flush, insert_and_maybe_flush): the passive in-memory copy is released only after the segment is verified and in the live list, nothing is published on a failure branch, the in-flight marker is set before the job is sent, the passive copy exists before the memtable is swapped - each decided by z3 over every branch outcome. B-7: StreamingScan::new plans on the shard's shared live-list handle and does not read the list while the scan is set up. B-8: PassiveBufferSet::non_empty never leaves out a buffer whose lock is busy.",
     "trusted_base": MIR_TRUSTED,
     "outside": [
         "interleavings of reads with these steps (schedules): no engine of this family explores them; only the sequential order of the steps is decided",
@@ -132,7 +134,7 @@ PROPS["C03"] = {
 PROPS["C05"] = {
     "mir": "c05",
     "level": "other",
-    "explanation": "Symbolic path-condition checking over the real MIR of CompactionHandover::commit_batch: the index is changed only if every output directory exists, only under the shard flush lock, the live list is updated only after a successful index save, inputs are retired before outputs are inserted, and only drained labels are retired from the live list and caches - each decided by z3 within the loop unrolling bound. B-4: SegmentIndex::retire_uid_from_labels / remove_labels compute, for every u32 id, the same (level, offset) key SegmentIndexTree::insert files the entry under (callee summaries inlined by substitution; machine arithmetic decided through a mod-2^32 integer encoding; counterexamples replayed on the real SegmentIndex). B-5: every MergePlan of KWayCountPolicy::plan carries its own fresh RangeAllocator::next_for_level(level_to) result. B-2d: commit_batch returns Ok only after the live list was updated. B-6: a small model of a compaction run cut short at each step boundary, composed from facts read from the MIR of ShardContext::new, SegmentIdLoader::load, QueryPlan::segment_maybe_contains_uid and the compaction worker (what a new process lists as live and decides to read); z3 finds the crash points at which an event is readable from an input and from the output, and the point 'index committed, inputs not yet reclaimed' is replayed on the real engine with a real background compaction (known finding F-C05-a).",
+    "explanation": "Symbolic path-condition checking over the real MIR of CompactionHandover::commit_batch: the index is changed only if every output directory exists, only under the shard flush lock, the live list is updated only after a successful index save, inputs are retired before outputs are inserted, and only drained labels are retired from the live list and caches - each decided by z3 within the loop unrolling bound. B-4: SegmentIndex::retire_uid_from_labels / remove_labels compute, for every u32 id, the same (level, offset) key SegmentIndexTree::insert files the entry under (callee summaries inlined by substitution; machine arithmetic decided through a mod-2^32 integer encoding; counterexamples replayed on the real SegmentIndex). B-5: every MergePlan of KWayCountPolicy::plan carries its own fresh RangeAllocator::next_for_level(level_to) result. B-2d: commit_batch returns Ok only after the live list was updated. B-6: a small model of a compaction run cut short at each step boundary, composed from facts read from the MIR of ShardContext::new, SegmentIdLoader::load, QueryPlan::segment_maybe_contains_uid and the compaction worker (what a new process lists as live and decides to read); z3 finds the crash points at which an event is readable from an input and from the output, and the point 'index committed, inputs not yet reclaimed' is replayed on the real engine with a real background compaction (known finding F-C05-a). B-7: ZoneCursorLoader::load_all fails when an input segment's zone metadata cannot be loaded.",
     "trusted_base": MIR_TRUSTED,
     "outside": [
         "equality of query answers before and after compaction (needs the k-way merge, HashMap-bound)",
@@ -221,6 +223,13 @@ PROPS["C12"] = {
 
 # Properties not (or not yet) claimed, each with the reason. Entries are removed from here
 # when a check for the property is registered in PROPS.
+for _p in ("C01", "C05"):
+    if _p in PROPS:
+        PROPS[_p]["trusted_base"] = list(PROPS[_p].get("trusted_base", [])) + COMPOSED_TRUSTED
+for _p in ("C08", "C11", "C16"):
+    if _p in PROPS:
+        PROPS[_p]["trusted_base"] = list(PROPS[_p].get("trusted_base", [])) + COMPOSED_TRUSTED[1:]
+
 NOT_APPLICABLE = {
     "C04": "order is decided by schedules of concurrent flows, BinaryHeap tie-breaking over HashMap-materialised rows and a BTreeMap<String,Vec<Event>> memtable; none of these finishes under Kani (3-row merger > 25 min, 3 inserts > 15 min) and no schedule explorer belongs to this technique",
     "C14": "everything the statement quantifies over is history-dependent (late events at the high-water second, frame store, pruning by zone creation time, flush barrier) and lives in async / HashMap code; the high-water-mark comparison kernel alone would be a vacuous claim",
